@@ -36,6 +36,11 @@ FIXED = [
  ("C14", "hexahedron colors its 6 quads", "hexahedron(colored=True) with quads: color entries for 12 faces, as_array raises"),
  ("C14", "icosphere(n_refine=0) lies on the sphere", "icosphere(0, radius=r) returned vertices at 1.902*r"),
  ("C14", "dual_mesh skips border vertices", "dual_mesh of a bordered mesh produced 1- and 2-vertex faces"),
+ ("C09", "shortest_path with weights='one'", "shortest_path(weights='one') raised TypeError (unit-weight lambda takes one argument, called with two)"),
+ ("C09", "shortest_path_to_vertex_set with a single target", "shortest_path_to_vertex_set with a one-element target collection raised KeyError: -1 (sentinel passed instead of the target)"),
+ ("C09", "build_path offsets the edges", "shortest_path(..., several targets, export_path_mesh=True): polyline edges of the 2nd+ paths indexed the first path's vertices (offset never advanced)"),
+ ("C11", "KDTree construction terminates", "KDTree construction looped forever when the pivot equals the largest coordinate on every axis (repeated / collinear / clustered points), all three strategies"),
+ ("C11", "KDTree.query only prunes once k candidates", "KDTree.query pruned subtrees with fewer than k candidates held: fewer than min(k,n) results or a farther point returned"),
  ("C14", "circumcenter lies in the plane", "geometry.circumcenter dropped the normal offset of the triangle's plane (dual_mesh circumcenter mode put vertices in the wrong plane)"),
 ]
 
